@@ -69,13 +69,21 @@ inductive RefineErr where
   deriving DecidableEq, Repr
 
 /-- `_get_from_identity_map_` for an object already in the identity map with class `cls`, asked for as `entity`
-    (status 'loaded'): the class the object has afterwards -/
-def Hier.refine (h : Hier) (cls entity : Nat) (rbits wbits : Nat) : Except RefineErr Nat :=
+    (status 'loaded'): the class the object has afterwards.  `compat` = no attribute of `cls` has another bit in `entity`
+    (`not any(entity._bits_.get(attr) != bit for attr, bit in obj.__class__._bits_.items())`): only then may an object whose read / write
+    bits are already set be moved to the subclass. -/
+def Hier.refine (h : Hier) (cls entity : Nat) (rbits wbits : Nat) (compat : Bool) : Except RefineErr Nat :=
   if cls = entity then .ok cls
   else if h.isSub cls entity then .ok cls
   else if !(h.isSub entity cls) then .error .classChange
-  else if rbits != 0 || wbits != 0 then .error .notImplemented
+  else if (rbits != 0 || wbits != 0) && !compat then .error .notImplemented
   else .ok entity
+
+/-- bit layouts: `bits c a` = the bit of attribute `a` in class `c` (`entity._bits_`); compatibility as the code tests it, over the attributes `attrs` of `cls` -/
+def layoutCompat (bits : Nat → Nat → Option Nat) (attrs : List Nat) (cls entity : Nat) : Bool :=
+  attrs.all (fun a => match bits cls a with
+    | some b => bits entity a == some b
+    | none => true)
 
 /-- the condition `FuncIsinstanceMonad` emits -/
 inductive Cond where
